@@ -65,8 +65,11 @@ static bool g_asan = false;
 static void addB(const std::string& tn, int lo, int hi, int d, int R, int M, double unit_budget) {
     auto w = [&](int n) {
         double st = d == 1 ? 2.0 * n + 10 : d == 2 ? 2.1 * n * n + 50 : 1.7 * n * n * n + 500;
-        if (R > 1) st *= 0.5;
+        if (R > 1) st *= 0.25;
+        else if (tn.find("multi") != std::string::npos) st *= d == 1 ? 1.3 : d == 2 ? 1.9 : 4.0;  // duplicates of present keys are inserted, too
         double sec = st * ((0.06 + 0.0012 * n) * 1e-3 + 4 * (6 + 0.1 * n) * 1e-6);
+        if (d >= 2) sec *= 1.3;
+        if (tn.find("tracked") != std::string::npos) sec *= 3;
         return g_asan ? 7 * sec : sec;
     };
     if (hi < lo) return;
@@ -186,8 +189,8 @@ static void build_table(const std::string& set) {
             add(t, multi ? A(4, 4, 0, 0) : A(P ? 12 : 10), P ? 15 : 25);
             add(t2, multi ? A(4, 4, 0, 0) : A(P ? 12 : 10), P ? 15 : 25);
             add(t, multi ? A(2, 3, 1, 0) : A(5, 1, 1), 5);
-            addB_plan(t, 4, 4, P ? 2 : 1, 60, multi ? 9 : 1, 12, 60);
-            addB_plan(t2, 5, 4, P ? 2 : 1, 75, multi ? 11 : 1, 14, 60);
+            addB_plan(t, 4, 4, P ? 2 : 1, P ? 40 : 60, multi ? 9 : 1, 12, 60);
+            addB_plan(t2, 5, 4, P ? 2 : 1, P ? 40 : 75, multi ? 11 : 1, 14, 60);
             if (!P) addB(t, 0, 16, 2, multi ? 9 : 1, 12, 60);
         }
         // ---- mode B: every (leaf, inner) in [4..9]^2, two type configurations each
@@ -203,9 +206,9 @@ static void build_table(const std::string& set) {
                     if (P) {
                         addB(t[j], 0, N, 1, 1, 4, 60);  // depth 1 from every seed
                         if (multi) addB(t[j], 0, N, 1, R, R + 3, 60);
-                        addB_plan(t[j], l, i, 2, 64, 1, 4, 60);  // depth 2: n <= 64 and the first three-level sizes
+                        addB_plan(t[j], l, i, 2, multi ? 54 : 64, 1, 4, 60);  // depth 2: n <= 64 (multi: 54) and the first three-level sizes
                         if (multi) addB_plan(t[j], l, i, 2, 64, R, R + 3, 60);
-                        if (l * (i + 1) <= 25) addB(t[j], 0, 36, 3, 1, 4, 60);  // depth 3 for (4,4), (4,5), (5,4)
+                        if (l * (i + 1) <= 25) addB(t[j], 0, multi ? 28 : 36, 3, 1, 4, 60);  // depth 3 for (4,4), (4,5), (5,4)
                     } else {
                         addB_plan(t[j], l, i, 1, 90, 1, 4, 60);
                         if (multi) addB_plan(t[j], l, i, 1, 90, R, R + 3, 60);
@@ -266,13 +269,24 @@ int main(int argc, char** argv) {
     }
     std::string set = vh::args().opt("set", vh::args().thorough() ? "tp" : "qp");
     build_table(set);
-    // most expensive first, then round-robin over the shards
     std::stable_sort(g_tab.begin(), g_tab.end(), [](const Cfg& a, const Cfg& b) { return a.cost > b.cost; });
     int sh = vh::args().shard, n = vh::args().nshards;
+    // most expensive first, each to the least loaded shard so far (round-robin when the costs are equal); deterministic
+    std::vector<int> shard_of(g_tab.size());
+    {
+        std::vector<double> load(n, 0.0);
+        for (size_t i = 0; i < g_tab.size(); ++i) {
+            int best = 0;
+            for (int j = 1; j < n; ++j)
+                if (load[j] < load[best] - 1e-9) best = j;
+            shard_of[i] = best;
+            load[best] += g_tab[i].cost + 0.05;
+        }
+    }
     if (vh::args().opt_int("list", 0)) {
         double tot = 0;
         for (size_t i = 0; i < g_tab.size(); ++i) {
-            vh::note(vh::fmt("shard %d cost %.1f %s/%s", (int)(i % n), g_tab[i].cost, g_tab[i].tn.c_str(), g_tab[i].p.str().c_str()));
+            vh::note(vh::fmt("shard %d cost %.1f %s/%s", shard_of[i], g_tab[i].cost, g_tab[i].tn.c_str(), g_tab[i].p.str().c_str()));
             tot += g_tab[i].cost;
         }
         vh::note(vh::fmt("%zu configurations, total cost %.0f", g_tab.size(), tot));
@@ -293,7 +307,7 @@ int main(int argc, char** argv) {
         return ru.ru_utime.tv_sec + ru.ru_utime.tv_usec * 1e-6 + ru.ru_stime.tv_sec + ru.ru_stime.tv_usec * 1e-6;
     };
     for (size_t i = 0; i < g_tab.size(); ++i) {
-        if ((int)(i % n) != sh) continue;
+        if (shard_of[i] != sh) continue;
         double c1 = child_cpu();
         c01::registry().at(g_tab[i].tn).run(g_tab[i].p);
         if (vh::args().opt_int("timing", 0)) vh::out_line(vh::fmt("TIMING cpu %.2fs (estimate %.1f) %s/%s", child_cpu() - c1, g_tab[i].cost, g_tab[i].tn.c_str(), g_tab[i].p.str().c_str()));
